@@ -133,6 +133,17 @@ CHECKS = {
         "deep-snapshot monitor around API calls + reference evaluator for converted objects",
         "4/C09",
     ),
+    "C07": (
+        "fault_enumeration",
+        "Crash points are enumerated per corpus file (truncation at every line boundary up to a stated number of lines, sampled "
+        "byte offsets) and mutations sampled (delete, duplicate, swap, substitute, numeric overflow, count and integer-field "
+        "changes, empty, random bytes, other format, unknown extension); the real load_one (25 modules) and load_many (7) run under "
+        "an exception classifier, a counting LineIterator bound in iodata.api (line-number oracle = lines actually read; "
+        "termination decided in logical steps: 20 x lines + 1000 reads), a shape checker on every returned object and "
+        "descriptor / ResourceWarning monitors after return, exhaustion, partial consumption + discard and explicit close.",
+        "fault enumeration over file states + counting-iterator, descriptor and shape monitors",
+        "4/C07",
+    ),
 }
 
 NOT_YET = "check not built yet (work in progress; see DESIGN.md section 5b)"
